@@ -140,6 +140,7 @@ pub fn decode_hex(data: &[u8]) -> Result<Vec<u8>> {
     let pairs = data.iter().cloned()
         .take_while(|&b| b != b'>')
         .filter(|&b| !matches!(b, 0 | 9 | 10 | 12 | 13 | 32))
+        .chain(std::iter::once(b'0')) // ISO 32000-1 7.4.2: an odd final digit is followed by an implied 0
         .tuples();
     for (i, (high, low)) in pairs.enumerate() {
         if let (Some(low), Some(high)) = (decode_nibble(low), decode_nibble(high)) {
